@@ -240,4 +240,60 @@ PROPS = {
             "i64 overflow of the append index (2^63 entries) is not modelled",
         ],
     ),
+
+    "C05": dict(
+        prop_file="Properties/C05.v",
+        check_module="C05Check",
+        theorems={t: [] for t in ["C05_ledger_invariant", "C05_oom_only_when_full", "C05_bounded_live_never_oom",
+                                  "C05_refused_not_charged", "C05_clear_is_fresh", "C05_gc_complete"]},
+        n_quick=60, n_thorough=600,
+        gates=["trace.alloc_refused", "trace.run_ended_OutOfMemory", "trace.collected>2",
+               "trace.collection_released_something", "gc_case.mid_run", "prog=string_churn", "prog=closures"],
+        rule="hand-written churn programs (garbage strings, garbage tables, growing table, closures with captured "
+             "locals, nested/shared tables with for-each, inline and dropped closures, stdlib callbacks that "
+             "allocate) scaled by n in {5,30,120,400} and string length in {4,32,200}, run 1-3 times with clear in "
+             "between under memory limits 900 B .. 400 KiB; every alloc / dealloc / nested collection is recorded "
+             "through the verif-hooks event log with the counters after it and compared with the allocator model "
+             "and with a shadow ledger of outstanding allocations; collections inside programs (gc_probe native) "
+             "are dumped as object graphs before/after and compared with the collector model and with a naive "
+             "reachability closure; non-trivial = the trace contains a collection / every collection case; "
+             "distinct = distinct case term",
+        trusted_base=COMMON_TB + [
+            "modelled, not verified: alloc/caolang_alloc.rs (alloc, dealloc, thresholds), RuntimeData::gc / clear "
+            "(vm/runtime.rs) as mark-from-roots-and-guards + sweep over an abstract object graph",
+            "the verif-hooks event log, heap dump and counters accessors in /repo (cfg feature, additive)"],
+        assumptions=[
+            "memory the crate takes outside its allocator (Vec of table keys, closure upvalue vectors, the object "
+            "list) is not 'accounted' by the property's own definition and is not checked",
+            "the object graph handed to the collector model is the one the hook dumps (table entries via iter, "
+            "closure upvalues, upvalue cells)",
+        ],
+    ),
+    "C02": dict(
+        prop_file="Properties/C02.v",
+        check_module="C02Check",
+        theorems={t: [] for t in ["C02_gc_preserves_reachable", "C02_mark_sound", "C02_mark_terminates"]},
+        n_quick=260, n_thorough=3000,
+        gates=["sched=every", "sched=single", "sched=subset", "gc_case", "prog=closures", "prog=stdlib_object_keys",
+               "prog=inline_closure"],
+        rule="for each program of the library (see C05, plus key functions returning fresh objects): a baseline run, "
+             "then runs with a collection forced at every allocation, at each single allocation index (quick: all "
+             "when <= 16 allocations, else 16 sampled; thorough: all) and at random subsets; freed objects are "
+             "quarantined and poisoned (verif-hooks), the heap is audited after every collection and at the end "
+             "(every object reachable from value stack, globals, call-frame closures, open-upvalue list and "
+             "guarded objects must be live), outcome and final globals (deep) must equal the baseline; collections "
+             "are also dumped as object graphs and compared with the collector model; non-trivial = the program "
+             "allocates; distinct = distinct case term",
+        trusted_base=COMMON_TB + [
+            "modelled, not verified: RuntimeData::gc as mark + sweep over an abstract object graph (Gc.v)",
+            "the verif-hooks in /repo: forced collections, quarantine + poisoning of freed objects, heap audit, "
+            "heap dump (cfg feature, additive); the audit and the outcome comparison are computed natively by the "
+            "harness and reported through the checker as schedule cases"],
+        assumptions=[
+            "that every temporary an instruction or native function holds is rooted at every allocation point is "
+            "checked by the schedules on the program library, not proved (no VM-level theorem yet)",
+            "the consequences of a use after free in the real address space are not modelled; the audit stops at "
+            "the first dangling reference, poisoning makes stale uses change the outcome",
+        ],
+    ),
 }
